@@ -172,6 +172,12 @@ func (c *c12Case) plan() *c12Plan {
 		case "INV":
 			nInv++
 			wasParked := m.parked
+			if nInv > 1 {
+				// the automaton enables a new invocation only when the previous one is over for the runtime; its caller's
+				// answer is then on its way - wait for it, or the new caller may find the old reservation still in place
+				// (a false alarm under load: the second caller was refused with AlreadyReserved)
+				drv = append(drv, Step{Op: "await", Name: prev, Ms: 8000}, Step{Op: "join", Tag: fmt.Sprintf("inv%d", nInv-1)})
+			}
 			drv = append(drv, Step{Op: "invoke", Async: true, Tag: fmt.Sprintf("inv%d", nInv), Await: awaitPrev(), Payload: &kit.Blob{Len: 10 + nInv, Seed: uint64(nInv), Kind: "ascii"}},
 				Step{Op: "waitreserved"})
 			cur := next()
